@@ -249,11 +249,48 @@ func readTL2(o verifc14.Obj, b []byte) (rest []byte, err error) {
 // over the exported fields. A value whose mask bit is clear but whose field is non-zero encodes like the canonical one.
 func fill(h *verifx.H, r *verifx.Rng, o verifc14.Obj) {
 	if f, ok := o.(verifc14.Filler); ok {
-		f.FillRandom(basictl.NewRandGenerator(rnd{r}))
+		f.FillRandom(newRG(h, r))
 		return
 	}
 	h.Stat("fill.reflect", 1)
 	reflFill(r, reflect.ValueOf(o), 0)
+}
+
+// newRG: the generated FillRandom draws field masks from a distribution in which bits above 8 are rare; the harness
+// replaces the mask choice so that every declared bit (and sometimes undeclared ones) is exercised, one mode per value.
+func newRG(h *verifx.H, r *verifx.Rng) *basictl.RandGenerator {
+	mode := r.Pick(2, 4, 1, 1, 1)
+	h.Stat(fmt.Sprintf("maskmode.%d", mode), 1)
+	return basictl.NewRandGeneratorWithContext(rnd{r}, basictl.RandgeneratorContext{
+		SizeHandler: func(g uint32) uint32 { // keep values small enough for the model driver
+			if g > 3 {
+				return g%3 + 1
+			}
+			return g
+		},
+		FieldMaskHandler: func(g uint32, declared uint32) uint32 {
+			switch mode {
+			case 1: // every declared bit with probability 1/2
+				return uint32(r.U64()) & declared
+			case 2: // all declared bits
+				return declared
+			case 3: // exactly one declared bit
+				var bits []uint32
+				for i := uint32(0); i < 32; i++ {
+					if declared&(1<<i) != 0 {
+						bits = append(bits, 1<<i)
+					}
+				}
+				if len(bits) == 0 {
+					return 0
+				}
+				return bits[r.Intn(len(bits))]
+			case 4: // declared bits at random plus undeclared ones (must be carried through untouched)
+				return uint32(r.U64())&declared | uint32(r.U64())&^declared
+			}
+			return g // the generator's own distribution
+		},
+	})
 }
 
 func reflFill(r *verifx.Rng, v reflect.Value, depth int) {
@@ -491,7 +528,7 @@ func (c *ctx) tlCase(it verifc14.Item, r *verifx.Rng) {
 				return fmt.Errorf("no FillRandomResultTL1")
 			}
 			var e error
-			res, e = rf.FillRandomResultTL1(basictl.NewRandGenerator(rnd{r}), nil)
+			res, e = rf.FillRandomResultTL1(newRG(h, r), nil)
 			return e
 		})
 		if err != nil {
